@@ -144,7 +144,7 @@ pub fn run(eng: &mut Engine) {
         PartCfg::new(
             "ops",
             "operation sequences add / remove / publish / read-n / drain / advance / trigger over 1-3 priority queues with multiplexing, both publish modes, objects with start times, carousel and pacing, tiny session symbols so that instances span many packets; per packet: its TOI is listed by an instance completely emitted before it, no object packet inside the first emission of an instance, none between an explicit publish() and the completion of the new instance; non-trivial = an object was added after the first read or two instances were pending at once; distinct by case",
-            tier.pick(15_000, 500_000),
+            tier.pick(80_000, 1_500_000),
         ),
         move || strategy(tier),
         move |c| run_case(c, &known),
